@@ -27,7 +27,11 @@ theorem guards_checkSheet :
     "r.R == 0 || r.R == row" ∈ Facts.C14.conds_checkSheet ∧
     "r.R != 0 && r.R > row" ∈ Facts.C14.conds_checkSheet ∧
     Facts.C14.index_checkSheet = ["ws.SheetData.Row[i]", "ws.SheetData.Row[:i]", "ws.SheetData.Row[i+1:]",
-      "sheetData.Row[r.R-1]", "sheetData.Row[r0Row.R-1]", "sheetData.Row[i-1]", "sheetData.Row[i-1]"] := by decide
+      "sheetData.Row[r.R-1]", "sheetData.Row[r0Row.R-1]", "sheetData.Row[r0Row.R-1]", "sheetData.Row[i-1]", "sheetData.Row[i-1]"] ∧
+    -- checkSheetR0: the running column of rows without row number, and its index sites
+    Facts.C14.conds_checkSheetR0 = ["!sheetData.Row[rowIdx].C[colIdx].hasValue()", "r0", "r0", "cell.R == \"\"",
+      "c, r, err := CellNameToCoordinates(cell.R); err == nil", "r0"] ∧
+    Facts.C14.index_checkSheetR0.length = 9 := by decide
 
 /-- the greatest-column loop of `checkRow` is present; its only data-dependent index is `C[colNum-1]` -/
 theorem guards_checkRow :
